@@ -34,6 +34,7 @@ package main
 
 import (
 	"fmt"
+	"go/types"
 	"math"
 	"math/big"
 	"sort"
@@ -155,6 +156,7 @@ func checkC01(ctx *Ctx, r *Report, tier string) {
 	ruleBB9(r, ctors)
 	ruleBB11(r, ctors)
 	ruleBB12(ctx, r)
+	ruleBB13(ctx, r)
 	// BB-10: the loft's box (hull of both profile boxes) holds only if the profiles are mixed
 	// with a factor in [0, 1] everywhere (rule shared with C02 M10)
 	checkLoftMix(ctx, r, "BB-10")
@@ -284,6 +286,81 @@ func ruleBB11(r *Report, ctors []bbCtor) {
 		r.check("BB-11", c.key+"|box-covers-the-outermost-end", c.fn.Pos(), bad == "" && tried == len(sets), fmt.Sprintf("%d of %d parameter sets evaluated: max(|a·start+k|, |a·end+k|) + d must be inside the box on every axis;%s", tried, len(sets), bad))
 	}
 	r.floor("BB-11", 1)
+}
+
+// ruleBB13: a blend function installed after construction. The box of the min-like combinators
+// (unions, arrays, rotate-copies) is the hull of the operand boxes, right for the plain minimum.
+// The library's own blend functions go below the minimum - poly(a, a, k) = a − k/4 - so a
+// blended combinator has material up to the blend's reach outside the boxes of its operands
+// (between two boxes side by side: above and below their junction, outside the hull). SetMin
+// therefore has to widen the stored box, or BoundingBox has to account for the function; a
+// SetMin that only stores the function leaves the box too small. (SetMax on intersections and
+// differences removes material; those boxes stay valid.)
+func ruleBB13(ctx *Ctx, r *Report) {
+	n := 0
+	for _, im := range sdfImplementers(ctx) {
+		set := methodOf(ctx, im.t, "SetMin")
+		bbm := methodOf(ctx, im.t, "BoundingBox")
+		if set == nil || len(set.Blocks) == 0 || bbm == nil {
+			continue
+		}
+		n++
+		isBox := func(t types.Type) bool {
+			ts := t.String()
+			return strings.HasSuffix(ts, "sdf.Box2") || strings.HasSuffix(ts, "sdf.Box3")
+		}
+		isMinFn := func(t types.Type) bool { return strings.HasSuffix(t.String(), "sdf.MinFunc") }
+		// (a) SetMin, or a module function it calls, writes a box-typed field (or part of one)
+		writesBox := false
+		seen := map[*ssa.Function]bool{}
+		var scan func(f *ssa.Function, depth int)
+		scan = func(f *ssa.Function, depth int) {
+			if f == nil || seen[f] || depth > 4 || len(f.Blocks) == 0 || !inModule(f) {
+				return
+			}
+			seen[f] = true
+			allInstrs(f, func(_ *ssa.BasicBlock, ins ssa.Instruction) {
+				switch x := ins.(type) {
+				case *ssa.Store:
+					for a := x.Addr; a != nil; {
+						fa, ok := a.(*ssa.FieldAddr)
+						if !ok {
+							break
+						}
+						if pt, ok := fa.Type().Underlying().(*types.Pointer); ok && isBox(pt.Elem()) {
+							writesBox = true
+						}
+						a = fa.X
+					}
+				case *ssa.Call:
+					scan(x.Call.StaticCallee(), depth+1)
+				}
+			})
+		}
+		scan(set, 0)
+		// (b) BoundingBox consults the blend function (or a flag SetMin sets)
+		setFields := map[int]bool{}
+		allInstrs(set, func(_ *ssa.BasicBlock, ins ssa.Instruction) {
+			if st, ok := ins.(*ssa.Store); ok {
+				if fa, ok := st.Addr.(*ssa.FieldAddr); ok && len(set.Params) > 0 && fa.X == ssa.Value(set.Params[0]) {
+					setFields[fa.Field] = true
+				}
+			}
+		})
+		readsBlend := false
+		if len(bbm.Blocks) > 0 {
+			allInstrs(bbm, func(_ *ssa.BasicBlock, ins ssa.Instruction) {
+				if fa, ok := ins.(*ssa.FieldAddr); ok && len(bbm.Params) > 0 && fa.X == ssa.Value(bbm.Params[0]) {
+					if pt, ok := fa.Type().Underlying().(*types.Pointer); ok && (isMinFn(pt.Elem()) || (setFields[fa.Field] && !isBox(pt.Elem()))) {
+						readsBlend = true
+					}
+				}
+			})
+		}
+		r.check("BB-13", "("+typeShort(im.t)+").SetMin", set.Pos(), writesBox || readsBlend,
+			"a blend function goes below the minimum (poly(a, a, k) = a − k/4), so installing one adds material outside the hull of the operand boxes: SetMin must widen the stored box or BoundingBox must account for the function; here SetMin only stores it")
+	}
+	r.floor("BB-13", 4)
 }
 
 // ruleBB12: the voxel cache interpolates samples taken inside its box and reports that box. For
